@@ -266,7 +266,17 @@ pub enum DecForm {
     Symbols,
     TrySymbols,
     Iid,
+    /// `decode_symbols(..).step_by(n)`: the skipped symbols are decoded and discarded by the
+    /// iterator (reported as `SKIPPED`), the coder must end up where the loop ends up
+    SymbolsStepBy(usize),
+    /// `try_decode_symbols(..).skip(n)`
+    TrySymbolsSkip(usize),
+    /// `decode_iid_symbols(..)`, taking every element with `nth(n)`
+    IidNth(usize),
 }
+
+/// placeholder for a symbol that an iterator adaptor decoded and threw away
+pub const SKIPPED: usize = usize::MAX;
 
 /// Outcome of a batch encode, flattened to something comparable across forms.
 #[derive(Clone, Debug, PartialEq, Eq)]
@@ -448,6 +458,33 @@ where
             .decode_iid_symbols(models.len(), models[0])
             .map(|r| r.expect("ANS decode failed"))
             .collect(),
+        DecForm::SymbolsStepBy(step) => {
+            let ys: Vec<usize> = c.decode_symbols(models.iter().copied()).step_by(step).map(|r| r.expect("ANS decode failed")).collect();
+            let mut out = vec![SKIPPED; models.len()];
+            for (i, y) in ys.into_iter().enumerate() {
+                out[i * step] = y;
+            }
+            out
+        }
+        DecForm::TrySymbolsSkip(j) => {
+            let ys: Vec<usize> = c.try_decode_symbols(models.iter().map(|m| Ok::<_, ()>(*m))).skip(j).map(|r| r.expect("ANS decode failed")).collect();
+            let mut out = vec![SKIPPED; j.min(models.len())];
+            out.extend(ys);
+            out
+        }
+        DecForm::IidNth(n) => {
+            let mut it = c.decode_iid_symbols(models.len(), models[0]);
+            let mut out = Vec::new();
+            while let Some(r) = it.nth(n) {
+                out.extend(std::iter::repeat(SKIPPED).take(n));
+                out.push(r.expect("ANS decode failed"));
+            }
+            // a trailing partial group was decoded and discarded as well
+            while out.len() < models.len() {
+                out.push(SKIPPED);
+            }
+            out
+        }
     }
 }
 
